@@ -88,4 +88,10 @@ CLAIMS = {
         note="'Fits in the existing slots' is decided with an upper bound of the endpoints the backend may need, so the oracle never demands a dynamic update the slots cannot hold; slots-min-free / increment are read from the controller's model of the backend.",
         technique="stateful property-based testing (rapid): invariant on the reload counter of a simulated HAProxy + slot-layout invariant after reloads",
     ),
+    "C12": dict(
+        text="Faults are injected at the observable boundaries of an update (each file written, each runtime command, the reload result) into generated histories; the real Reconcile is then retried with an empty batch, as its RequeueAfter does, and the result must converge to a fresh controller's files and to a running HAProxy equal to the files. The defect this exposed (commit on every return path) was repaired in /repo.",
+        design_ref="DESIGN.md section 3, C12",
+        note="Failure points are sampled (file chosen by index among the files written so far and the fixed names), not enumerated per history; simhap and hapcfg are the trusted base; uses the real IngressReconciler.Reconcile and Services.ReconcileIngress through verif hooks.",
+        technique="stateful property-based testing (rapid) with fault injection: differential against a fresh controller after the retry",
+    ),
 }
